@@ -20,6 +20,9 @@ def gen_C12():
     f = Family("C12")
     # minimum payload the DataSender wants to write when a chunk would be fragmented
     f.const("min_write_size", TRAITS, r"const\s+MIN_WRITE_SIZE\s*:\s*usize\s*=\s*([^;]+);")
+    # transmit_interval clamps the packet capacity: `capacity.min(u16::MAX as _)`
+    f.const("transmit_capacity_clamp", "quic/s2n-quic-transport/src/sync/data_sender/transmissions.rs",
+            r"let\s+capacity\s*=\s*capacity\.min\(([^)]+?)\s+as\s+_\)")
     # StreamId::next_of_type adds 4
     f.const("stream_id_step", SID, r"fn\s+next_of_type.*?checked_add\(VarInt::from_u32\(([^)]+)\)\)")
     # StreamId::initial: (bidi, client) -> 0, (bidi, server) -> 1, (uni, client) -> 2, (uni, server) -> 3
